@@ -2,13 +2,42 @@ import XV.Lemmas.Assoc
 import XV.Lemmas.ChainFrame
 import XV.Model.Snapshot
 import XV.Lemmas.SnapWalk
+import XV.Lemmas.SnapLedger
 /-!
 C18 — snapshot reads return a key's value as of the chosen main-chain block.
-Theorems about the backwards walk `XV.Snapshot.walkBack` (= `xModSnapshot.Get`):
-it never returns a pending write, never a write confirmed above the snapshot height, it returns the first
-eligible writer on the version chain, and — the inductive step behind "unaffected by later blocks, pending
-transactions, deletions and re-creations after B" — a later write of the key (pending, or confirmed above the
-snapshot height) whose own input cites the version that was current leaves every snapshot answer unchanged.
+
+The walk. Theorems about the backwards walk `XV.Snapshot.walkBack` (= `xModSnapshot.Get`): it never returns a pending
+write (`snapshot_hides_pool`), never a write confirmed above the snapshot height (`snapshot_height_bound`), it hands
+over along the cited versions (`walkBack_skip`), and a later write of the key (pending, or confirmed above the
+snapshot height) whose own input cites the version that was current leaves every snapshot answer unchanged
+(`snapshot_unaffected_by_later_write`, the inductive step).
+
+The closing induction (Lemmas/SnapView.lean `walkBack_run`, SnapRun.lean). `snapshot_at_block_eq_live_then`: on top
+of the state at block B, after ANY sequence of further blocks (`todoBlock`, `play` on an empty pool) and ANY
+submissions (`doTx`), the snapshot at B's height reads every key exactly as the live reader did when B was the tip;
+explicit fuel bound (later writers of the key + 1; `_total`: all later transactions + 1, and the bound is sharp).
+`tip_snapshot_hides_pending`. No "one write per key" assumption: the version a transaction leaves is that of its
+last write of the key.
+
+The version-chain invariant `VChain` (Lemmas/SnapVChain.lean): `vchain_empty`, `vchain_doTx`, `vchain_todoBlock`,
+`vchain_play`, `vchain_undoTx_pending`, `vchain_undoTx_confirmed`, `vchain_canonical` (every replayed chain);
+`snapshot_first_eligible` (what a snapshot returns on a state with the invariant); `snapshot_at_block_of_vchain`
+(the main theorem from the invariant at B, nothing assumed about pending transactions); `key_writer_once` (a
+transaction that writes a key is admitted at most once in a history).
+
+Every block up to the tip (Lemmas/SnapChain.lean): `snapshot_every_block` — for every split of a replayed chain, with
+the height table `confOf` of the chain; `snapshot_every_block_ledger` — with the table the ledger model of C04 keeps
+(`ledgerConfH`, Lemmas/SnapLedger.lean), through C04's invariant `c_trunk`.
+
+Reorganisations (Lemmas/SnapWalk.lean, through C01 `walk_canonical`): `snapshot_after_walk`,
+`snapshot_on_canonical_node`, `snapshot_common_ancestor_stable`.
+
+What is false: `snapshot_any_branch_statement` — a height table that reports, for a transaction confirmed on two
+branches, the block of the OTHER branch (`snapshot_any_branch_counterexample`, witness replayable on the
+implementation); `snapshot_any_branch_partial` names the missing hypothesis, which C04 `c_trunk` provides.
+
+Not covered here: `play` on a non-empty pool and `playForMiner` between B and the read (they need the commutation of
+independent transactions, as in C01).
 -/
 namespace XV.C18
 open XV.Chain XV.Snapshot
@@ -293,6 +322,11 @@ example : snapshotGet hEnv hNode hConf 2 "k" 4 = some (4, 0) :=
     (by decide) (confirmed_of_rows _ _ _ (by decide)) hExt (by decide) (pends_foldl hEnv 0 [7, 8, 9] (hAt 4))
     (by decide) "k" 4 (by decide)
 
+example : snapshotGet hEnv hNode hConf 2 "k" 5 = some (4, 0) :=
+  snapshot_at_block_eq_live_then_total hEnv (by decide) (hAt 2) (hAt 4) hNode hConf 2 [hEnv.block 3, hEnv.block 4]
+    (by decide) (confirmed_of_rows _ _ _ (by decide)) hExt (by decide) (pends_foldl hEnv 0 [7, 8, 9] (hAt 4))
+    (by decide) "k" 5 (by decide)
+
 -- the fuel bound is sharp: three later transactions write "k" (5, 6, 7), fuel 3 is not enough
 example : nWrites hEnv (blocksTxs [hEnv.block 3, hEnv.block 4] ++ hNode.pool) "k" = 3 ∧
     snapshotGet hEnv hNode hConf 2 "k" 3 = none := by decide
@@ -379,9 +413,11 @@ theorem snapshot_first_eligible (e : Env) (s : St) (confH : Nat → Option Nat) 
   intro v hv'
   exact ho.mem_cases v.1 (List.mem_map.mpr ⟨v, hv', rfl⟩)
 
-/-- the hypothesis "every version the state at B shows is confirmed at or below `hB`" of
-`snapshot_at_block_eq_live_then` follows from the invariant at B: `confH0` is the height table when B was the tip (no
-height above `hB`), the final table `confH` extends it -/
+/-- **the main theorem from the invariant.** The hypothesis "every version the state at B shows is confirmed at or
+below `hB`" of `snapshot_at_block_eq_live_then` follows from the invariant at B (`confH0`: the height table when B was
+the tip, no height above `hB`; the final table `confH` extends it), and so does its hypothesis on the pending
+transactions: the writer of a version that is current at B can never be admitted again (`no_rewrite`), so NOTHING is
+assumed about what is pending -/
 theorem snapshot_at_block_of_vchain (e : Env) (hids : EnvIds e) (s s1 s' : St) (confH0 confH : Nat → Option Nat)
     (hB : Nat) (bs : List Block)
     (hpool : s.pool = []) (hv : VChain e s confH0) (htop : ∀ i bh, confH0 i = some bh → bh ≤ hB)
@@ -389,13 +425,37 @@ theorem snapshot_at_block_of_vchain (e : Env) (hids : EnvIds e) (s s1 s' : St) (
     (hext : Extends e s bs s1)
     (hhigh : ∀ b ∈ bs, ∀ i ∈ b.txs, ∃ bh, confH i = some bh ∧ hB < bh)
     (hpend : Pends e s1 s')
-    (hfresh : ∀ i ∈ s'.pool, confH i = none)
     (key : String) (fuel : Nat) (hfuel : nWrites e (blocksTxs bs ++ s'.pool) key + 1 ≤ fuel) :
     snapshotGet e s' confH hB key fuel = curVer s key := by
-  apply snapshot_at_block_eq_live_then e hids s s1 s' confH hB bs hpool _ hext hhigh hpend hfresh key fuel hfuel
-  intro k v hkv
-  obtain ⟨bh, h1, h2⟩ := vchain_confirmed_le e s confH0 hB hv hpool htop k v hkv
-  exact ⟨bh, hgrow _ _ h1, h2⟩
+  obtain ⟨r1, r2, r3⟩ := hext.run
+  obtain ⟨l, p1, p2, p3⟩ := hpend.run
+  rw [r3, hpool, List.nil_append] at p1
+  rw [r2] at p2 p3
+  have hrun : RunV e (blocksTxs bs ++ l) (curVer s) := (RunV_append e _ _ _).mpr ⟨r1, p2⟩
+  unfold snapshotGet
+  rw [p3, ← runV_append, p1]
+  rw [p1] at hfuel
+  apply walkBack_run e hids l confH hB key (curVer s) (blocksTxs bs ++ l) _ hrun _ fuel hfuel
+  · intro v hcv
+    obtain ⟨bh, h1, h2⟩ := vchain_confirmed_le e s confH0 hB hv hpool htop key v hcv
+    obtain ⟨lk, hl, _⟩ := hv key
+    rw [hcv] at hl
+    obtain ⟨l', rfl, _, _⟩ := hl.head
+    have := no_rewrite e hids key v l' (curVer s) (blocksTxs bs ++ l) hcv hl hrun
+    exact ⟨fun hm => this (List.mem_append_right _ hm), bh, hgrow _ _ h1, h2⟩
+  · intro i hi _
+    rcases List.mem_append.mp hi with hi | hi
+    · obtain ⟨b, hb, hib⟩ := (mem_blocksTxs bs i).mp hi
+      exact Or.inr (hhigh b hb i hib)
+    · exact Or.inl hi
+
+/-- **a transaction that writes a key is admitted at most once in a history**: in a run of admitted transactions
+(`RunV`: every read cites the current version, every written key is read) from a state without keys, a transaction
+that writes some key does not occur again after its first occurrence — its chain would have to shrink back. This
+is what makes the snapshot theorems free of assumptions about repeated or re-submitted transactions. -/
+theorem key_writer_once (e : Env) (hids : EnvIds e) (g : St) (hg : ∀ key, curVer g key = none) (A B : List Nat) (i : Nat)
+    (key : String) (hrun : RunV e (A ++ i :: B) (curVer g)) (hw : writesKey e key i = true) : i ∉ B :=
+  writer_once e hids key (curVer g) [] (by rw [hg key]; exact Links.nil) A B i hrun hw
 
 -- non-vacuity, on the history above: the invariant holds on the replay of the whole chain, at block 2 (where the
 -- ledger knows no height above 2), and survives the submissions; undoing the newest pending writer (8) keeps it
@@ -416,6 +476,46 @@ example : hNode'.pool = [7] ++ [(hEnv.tx 8).id] ∧ hEnv.tx (hEnv.tx 8).id = hEn
 example : VChain hEnv { undoTx hEnv hNode' (hEnv.tx 8) with pool := [7] } (confOf hEnv [1, 2, 3, 4]) :=
   vchain_undoTx_pending hEnv hNode' _ (hEnv.tx 8) [7] hVNode (by decide) (by decide) (by decide)
     (by unfold UndoSafe; decide) (fun ko hko => ⟨0, by revert ko; decide⟩)
+-- a submission, a block applied by `todoBlock` / `play`, and the undo of the newest confirmed writer (5, the delete in block 3)
+example : VChain hEnv (doTx hEnv (replayChain hEnv [1, 2, 3, 4] {}) 0 7).1 (confOf hEnv [1, 2, 3, 4]) :=
+  vchain_doTx hEnv (by decide) _ _ 0 7 hV4 (by decide)
+example : VChain hEnv ((todoBlock hEnv (replayChain hEnv [1, 2] {}) 0 (hEnv.block 3)).getD default)
+    (fun j => if j ∈ (hEnv.block 3).txs then some (hEnv.block 3).height else confOf hEnv [1, 2] j) := by
+  have hs : (todoBlock hEnv (replayChain hEnv [1, 2] {}) 0 (hEnv.block 3)).isSome = true := by decide
+  cases ht : todoBlock hEnv (replayChain hEnv [1, 2] {}) 0 (hEnv.block 3) with
+  | none => rw [ht] at hs; cases hs
+  | some s' =>
+    exact vchain_todoBlock hEnv (by decide) _ s' _ 0 (hEnv.block 3) hV2 rfl ht (by decide) (by decide)
+      (confOf_le hEnv [1, 2] _ (by decide))
+example : VChain hEnv (play hEnv (replayChain hEnv [1, 2] {}) 0 (hEnv.block 3)).1
+    (fun j => if j ∈ (hEnv.block 3).txs then some (hEnv.block 3).height else confOf hEnv [1, 2] j) :=
+  vchain_play hEnv (by decide) _ _ 0 (hEnv.block 3) hV2 rfl (by decide) (by decide) (by decide)
+    (confOf_le hEnv [1, 2] _ (by decide))
+example : VChain hEnv (undoTx hEnv (replayChain hEnv [1, 2, 3] {}) (hEnv.tx 5))
+    (fun j => if j = (hEnv.tx 5).id then none else confOf hEnv [1, 2, 3] j) :=
+  vchain_undoTx_confirmed hEnv _ _ (hEnv.tx 5)
+    (vchain_canonical hEnv (by decide) {} (fun _ => rfl) rfl [1, 2, 3] (by decide) (by decide) (by decide) (by decide))
+    rfl (by decide) (by decide) (by unfold UndoSafe; decide) (fun ko hko => ⟨0, by revert ko; decide⟩)
+example : curVer (replayChain hEnv [1, 2, 3] {}) "k" = some (5, 0) ∧
+    curVer (undoTx hEnv (replayChain hEnv [1, 2, 3] {}) (hEnv.tx 5)) "k" = some (4, 0) := by decide
+-- `snapshot_at_block_of_vchain` for B = block 2: the invariant at B (`hV2`), two more blocks, three submissions
+private def hS4 : St := (todoBlock hEnv ((todoBlock hEnv (replayChain hEnv [1, 2] {}) 0 (hEnv.block 3)).getD default) 0
+  (hEnv.block 4)).getD default
+example : snapshotGet hEnv ([7, 8, 9].foldl (fun st i => (doTx hEnv st 0 i).1) hS4) (confOf hEnv ([1, 2] ++ [3, 4])) 2 "k" 4 =
+    curVer (replayChain hEnv [1, 2] {}) "k" :=
+  snapshot_at_block_of_vchain hEnv (by decide) (replayChain hEnv [1, 2] {}) hS4 _ (confOf hEnv [1, 2])
+    (confOf hEnv ([1, 2] ++ [3, 4])) 2 [hEnv.block 3, hEnv.block 4] rfl hV2 (confOf_le hEnv [1, 2] 2 (by decide))
+    (fun i bh h => confOf_prefix hEnv [1, 2] [3, 4] i bh h)
+    (Extends.todo' (bs := [hEnv.block 3]) 0 (hEnv.block 4)
+      (Extends.todo' (bs := []) 0 (hEnv.block 3) (Extends.refl _) (by decide)) (by decide))
+    (by decide) (pends_foldl hEnv 0 [7, 8, 9] hS4) "k" 4 (by decide)
+example : RunV hEnv ([1, 2, 3] ++ 4 :: [5, 6, 7, 8]) (curVer ({} : St)) ∧ writesKey hEnv "k" 4 = true ∧
+    ¬ RunV hEnv ([1, 2, 3] ++ 4 :: [5, 4]) (curVer ({} : St)) := by decide
+example : 4 ∉ [5, 6, 7, 8] := key_writer_once hEnv (by decide) {} (fun _ => rfl) [1, 2, 3] [5, 6, 7, 8] 4 "k" (by decide) (by decide)
+example : ∃ l, Links hEnv "k" (curVer hNode' "k") l ∧ ∀ fuel, l.length + 1 ≤ fuel →
+    snapshotGet hEnv hNode' (confOf hEnv [1, 2, 3, 4]) 2 "k" fuel =
+      l.find? (fun v => !hNode'.pool.contains v.1 && confLe (confOf hEnv [1, 2, 3, 4]) 2 v.1) :=
+  snapshot_first_eligible hEnv hNode' _ hVNode 2 "k"
 -- the chain of "k" on the node, newest first: pending delete, double write of tx 6, delete, overwrite, re-creation,
 -- delete, creation — and the snapshot at each height is the first eligible link
 example : Links hEnv "k" (curVer hNode' "k") [(7, 0), (6, 2), (5, 0), (4, 0), (3, 0), (2, 0), (1, 0)] :=
@@ -431,29 +531,48 @@ example : ∀ i bh, confOf hEnv [1, 2] i = some bh → bh ≤ 2 := confOf_le hEn
 
 /-- **for every block B up to the current tip**: on the replay of the chain `l1 ++ l2` (block ids, oldest first; any
 split, i.e. any B = last block of `l1`, and any height `hB` from B's up to below the next block's) from a base state
-without keys, with any sequence of submissions on top, the snapshot at `hB` — the ledger's height table being `confOf`
-of the chain — reads every key as the replay of `l1` alone does. The chain's transactions, in order, each cite the
-current version of what they read and read what they write (`RunV`; implied by C01 `ChainValid`); pending
-transactions must not be confirmed in `l1`; no transaction sits twice on the chain. -/
+without keys, with ANY sequence of submissions on top, the snapshot at `hB` — the ledger's height table being `confOf`
+of the chain — reads every key as the replay of `l1` alone does. The only hypothesis on the history: its
+transactions, in order, each cite the current version of what they read and read what they write (`RunV`, the key
+half of admission; implied by C01 `ChainValid`). Nothing is assumed about repeated or pending transactions: a writer of a
+key sits only once in such a history (`writer_once`). -/
 theorem snapshot_every_block (e : Env) (hids : EnvIds e) (g : St) (l1 l2 : List Nat) (hB : Nat) (S : St)
     (hg : ∀ key, curVer g key = none) (hgp : g.pool = [])
-    (hvalid : RunV e (chainTxs e (l1 ++ l2)) (curVer g)) (honce : TxOnce e (l1 ++ l2))
+    (hvalid : RunV e (chainTxs e (l1 ++ l2)) (curVer g))
     (hlow : ∀ b ∈ l1, (e.block b).height ≤ hB) (hhigh : ∀ b ∈ l2, hB < (e.block b).height)
     (hpend : Pends e (replayChain e (l1 ++ l2) g) S)
-    (hfresh : ∀ i ∈ S.pool, i ∉ chainTxs e l1)
     (key : String) (fuel : Nat) (hfuel : nWrites e (chainTxs e l2 ++ S.pool) key + 1 ≤ fuel) :
     snapshotGet e S (confOf e (l1 ++ l2)) hB key fuel = curVer (replayChain e l1 g) key := by
   obtain ⟨l, p1, p2, p3⟩ := hpend.run
   rw [XV.C01.replayChain_pool, hgp, List.nil_append] at p1
-  rw [p1] at hfresh hfuel
-  exact snapshot_chain_core e hids g l1 l2 _ hB l S hg hvalid
-    (fun b hb i hi => confOf_eq e _ honce b hb i hi) hlow hhigh p1 p2 p3 hfresh key fuel hfuel
+  rw [p1] at hfuel
+  exact snapshot_chain_confOf e hids g l1 l2 hB l S key hg hvalid hlow hhigh p1 p2 p3 fuel hfuel
 
 -- non-vacuity: the history above, split after block 2 — and the theorem gives the computed answer
 example : snapshotGet hEnv hNode' (confOf hEnv ([1, 2] ++ [3, 4])) 2 "k" 4 = curVer (replayChain hEnv [1, 2] {}) "k" :=
   snapshot_every_block hEnv (by decide) {} [1, 2] [3, 4] 2 hNode' (fun _ => rfl) rfl (by decide) (by decide) (by decide)
-    (by decide) (pends_foldl hEnv 0 [7, 8, 9] _) (by decide) "k" 4 (by decide)
+    (pends_foldl hEnv 0 [7, 8, 9] _) "k" 4 (by decide)
 example : curVer (replayChain hEnv [1, 2] {}) "k" = some (4, 0) ∧ hNode'.pool = [7, 8] := by decide
+
+/-- **… with the height table the ledger keeps.** `ledgerConfH l` = the confirmed table of the ledger model of C04
+(transaction → the `Blockid` stored with it) composed with block → height — what `xModSnapshot.Get` consults. If the
+ledger satisfies C04's invariant (`LedgerInv`, kept by every `ConfirmBlock`: `confirm_inv`) and stores the blocks of
+the chain as main-chain blocks with the same transactions and heights (`LedgerMatches`), the snapshot at any block
+of the chain is the live read of then — whatever side branches the ledger holds, and whichever of them confirmed the
+same transactions before. -/
+theorem snapshot_every_block_ledger (e : Env) (hids : EnvIds e) (g : St) (l1 l2 : List Nat) (hB : Nat) (S : St)
+    (l : XV.Ledger.L) (I : XV.Ledger.LedgerInv l) (hm : LedgerMatches l e (l1 ++ l2))
+    (hg : ∀ key, curVer g key = none) (hgp : g.pool = [])
+    (hvalid : RunV e (chainTxs e (l1 ++ l2)) (curVer g))
+    (hlow : ∀ b ∈ l1, (e.block b).height ≤ hB) (hhigh : ∀ b ∈ l2, hB < (e.block b).height)
+    (hpend : Pends e (replayChain e (l1 ++ l2) g) S)
+    (key : String) (fuel : Nat) (hfuel : nWrites e (chainTxs e l2 ++ S.pool) key + 1 ≤ fuel) :
+    snapshotGet e S (ledgerConfH l) hB key fuel = curVer (replayChain e l1 g) key := by
+  obtain ⟨pl, p1, p2, p3⟩ := hpend.run
+  rw [XV.C01.replayChain_pool, hgp, List.nil_append] at p1
+  rw [p1] at hfuel
+  exact snapshot_chain_core e hids g l1 l2 _ hB pl S hg hvalid (ledgerConfH_main l e _ I hm) hlow hhigh p1 p2 p3
+    key fuel hfuel
 
 -- ================================================================== reorganisations
 
@@ -461,8 +580,8 @@ example : curVer (replayChain hEnv [1, 2] {}) "k" = some (4, 0) ∧ hNode'.pool 
 the two branches — still equals the live read at that block.** Hypotheses of C01 `walk_canonical` (block tree with
 parent links strictly down in height; base state `g` well-formed, without keys; the old tip's chain and
 the old pool valid; the node in canonical form), the destination chain valid and without repeated transactions,
-`B` any block on it; the height table is `confOf` of the destination chain (the new main chain); the transactions the
-walk re-submitted are not confirmed at or below `B`. The walk may undo and apply any number of blocks, prune or not.
+`B` any block on it; the height table is `confOf` of the destination chain (the new main chain). Nothing is assumed
+about the transactions the walk re-submits. The walk may undo and apply any number of blocks, prune or not.
 Applies to the result of a previous walk as well (walk to another branch and back). -/
 theorem snapshot_after_walk (e : Env) (hids : EnvIds e) (s : St) (lh : Int) (dest : Nat) (prune : Bool) (g : St)
     (hpl : ParentLower e) (hok : (walk e s lh dest prune).2 = true) (hinv : KVInv e g)
@@ -473,15 +592,12 @@ theorem snapshot_after_walk (e : Env) (hids : EnvIds e) (s : St) (lh : Int) (des
     (hdchain : XV.C01.ChainValid e (ancestors e (e.blocks.length + 1) dest).reverse g)
     (honce : TxOnce e (ancestors e (e.blocks.length + 1) dest))
     (B : Nat) (hB : B ∈ ancestors e (e.blocks.length + 1) dest)
-    (hfresh : ∀ i ∈ (walk e s lh dest prune).1.pool,
-      i ∉ chainTxs e (ancestors e (e.blocks.length + 1) B).reverse)
     (key : String) (fuel : Nat)
     (hfuel : (chainTxs e (ancestors e (e.blocks.length + 1) dest).reverse).length +
       (walk e s lh dest prune).1.pool.length + 1 ≤ fuel) :
     snapshotGet e (walk e s lh dest prune).1 (confOf e (ancestors e (e.blocks.length + 1) dest))
       (e.block B).height key fuel = curVer (XV.C01.canon e g B) key :=
-  snapshot_walk_core e hids s lh dest prune g hpl hok hinv hg hchain hpool hs hdchain honce B hB hfresh key fuel
-    hfuel
+  snapshot_walk_core e hids s lh dest prune g hpl hok hinv hg hchain hpool hs hdchain honce B hB key fuel hfuel
 
 /-- the same without a walk: on a node in canonical form the snapshot at any block `B` of the tip's chain is the
 live read of the canonical state of `B` -/
@@ -492,12 +608,11 @@ theorem snapshot_on_canonical_node (e : Env) (hids : EnvIds e) (s : St) (g : St)
     (hs : TRefines s (applyPool e s.pool (XV.C01.canon e g s.pointer)))
     (honce : TxOnce e (ancestors e (e.blocks.length + 1) s.pointer))
     (B : Nat) (hB : B ∈ ancestors e (e.blocks.length + 1) s.pointer)
-    (hfresh : ∀ i ∈ s.pool, i ∉ chainTxs e (ancestors e (e.blocks.length + 1) B).reverse)
     (key : String) (fuel : Nat)
     (hfuel : (chainTxs e (ancestors e (e.blocks.length + 1) s.pointer).reverse).length + s.pool.length + 1 ≤ fuel) :
     snapshotGet e s (confOf e (ancestors e (e.blocks.length + 1) s.pointer)) (e.block B).height key fuel =
       curVer (XV.C01.canon e g B) key :=
-  snapshot_canonical_core e hids s g hpl hg hchain hpool hs honce B hB hfresh key fuel hfuel
+  snapshot_canonical_core e hids s g hpl hg hchain hpool hs honce B hB key fuel hfuel
 
 /-- **a snapshot at a common ancestor does not change across a reorganisation**: for `B` on the chain of the old tip
 and of the destination, the snapshot at `B` before the walk (height table of the old main chain) and after it
@@ -513,9 +628,6 @@ theorem snapshot_common_ancestor_stable (e : Env) (hids : EnvIds e) (s : St) (lh
     (honce' : TxOnce e (ancestors e (e.blocks.length + 1) dest))
     (B : Nat) (hB : B ∈ ancestors e (e.blocks.length + 1) s.pointer)
     (hB' : B ∈ ancestors e (e.blocks.length + 1) dest)
-    (hfresh : ∀ i ∈ s.pool, i ∉ chainTxs e (ancestors e (e.blocks.length + 1) B).reverse)
-    (hfresh' : ∀ i ∈ (walk e s lh dest prune).1.pool,
-      i ∉ chainTxs e (ancestors e (e.blocks.length + 1) B).reverse)
     (key : String) (fuel : Nat)
     (hfuel : (chainTxs e (ancestors e (e.blocks.length + 1) s.pointer).reverse).length + s.pool.length + 1 ≤ fuel)
     (hfuel' : (chainTxs e (ancestors e (e.blocks.length + 1) dest).reverse).length +
@@ -523,9 +635,8 @@ theorem snapshot_common_ancestor_stable (e : Env) (hids : EnvIds e) (s : St) (lh
     snapshotGet e (walk e s lh dest prune).1 (confOf e (ancestors e (e.blocks.length + 1) dest))
         (e.block B).height key fuel =
       snapshotGet e s (confOf e (ancestors e (e.blocks.length + 1) s.pointer)) (e.block B).height key fuel := by
-  rw [snapshot_after_walk e hids s lh dest prune g hpl hok hinv hg hchain hpool hs hdchain honce' B hB' hfresh'
-      key fuel hfuel',
-    snapshot_on_canonical_node e hids s g hpl hg hchain hpool hs honce B hB hfresh key fuel hfuel]
+  rw [snapshot_after_walk e hids s lh dest prune g hpl hok hinv hg hchain hpool hs hdchain honce' B hB' key fuel hfuel',
+    snapshot_on_canonical_node e hids s g hpl hg hchain hpool hs honce B hB key fuel hfuel]
 
 -- non-vacuity: blocks 1 ← 2 ← 3 (branch A: "k" created, overwritten, deleted) and 1 ← 4 ← 5 ← 6 (branch B: "k" deleted,
 -- re-created, overwritten); the node is at block 3 with transactions 40 (re-creates "k") and 41 (creates "j") pending,
@@ -566,12 +677,15 @@ private theorem rHs : TRefines rNode (applyPool rEnv rNode.pool (XV.C01.canon rE
 example : snapshotGet rEnv rThere (confOf rEnv (ancestors rEnv 7 6)) 1 "k" 9 = curVer (XV.C01.canon rEnv {} 1) "k" :=
   snapshot_after_walk rEnv (by decide) rNode 0 6 false {} rPL (by decide) (KVInv_empty rEnv {} rfl rfl)
     (fun _ => rfl) (chainValid_of_ok _ _ _ (by decide)) (poolValid_of_ok _ _ _ (by decide)) rHs
-    (chainValid_of_ok _ _ _ (by decide)) (by decide) 1 (by decide) (by decide) "k" 9 (by decide)
+    (chainValid_of_ok _ _ _ (by decide)) (by decide) 1 (by decide) "k" 9 (by decide)
+example : snapshotGet rEnv rNode (confOf rEnv (ancestors rEnv 7 3)) 2 "k" 9 = curVer (XV.C01.canon rEnv {} 2) "k" :=
+  snapshot_on_canonical_node rEnv (by decide) rNode {} rPL (fun _ => rfl) (chainValid_of_ok _ _ _ (by decide))
+    (poolValid_of_ok _ _ _ (by decide)) rHs (by decide) 2 (by decide) "k" 9 (by decide)
 example : snapshotGet rEnv rThere (confOf rEnv (ancestors rEnv 7 6)) 1 "k" 9 =
     snapshotGet rEnv rNode (confOf rEnv (ancestors rEnv 7 3)) 1 "k" 9 :=
   snapshot_common_ancestor_stable rEnv (by decide) rNode 0 6 false {} rPL (by decide) (KVInv_empty rEnv {} rfl rfl)
     (fun _ => rfl) (chainValid_of_ok _ _ _ (by decide)) (poolValid_of_ok _ _ _ (by decide)) rHs
-    (chainValid_of_ok _ _ _ (by decide)) (by decide) (by decide) 1 (by decide) (by decide) (by decide) (by decide)
+    (chainValid_of_ok _ _ _ (by decide)) (by decide) (by decide) 1 (by decide) (by decide)
     "k" 9 (by decide) (by decide)
 
 -- ================================================================== what is NOT true: a height table of another branch
@@ -588,33 +702,65 @@ def snapshot_any_branch_statement : Prop :=
     nWrites e (chainTxs e l2) key + 1 ≤ fuel →
     snapshotGet e (replayChain e (l1 ++ l2) g) confH hB key fuel = curVer (replayChain e l1 g) key
 
--- the witness: transaction 1 (creates "k") sits in block 2 (branch A: 1 ← 2, height 2) AND in block 4 (branch B:
--- 1 ← 3 ← 4, height 3; block 3 is empty). The node is on branch B. If the ledger answers "transaction 1 → height 2"
--- (the block of the other branch), the snapshot at block 3 (height 2) returns version (1,0), although "k" did not exist
--- when block 3 was the tip. TO REPLAY ON THE IMPLEMENTATION: confirm the same transaction in two sibling branches at
--- different heights (first on the branch that is / becomes the side branch), make the higher one the main chain, read
--- the key through a snapshot at a main-chain block between the two heights — does `xModSnapshot.Get` take the block of
--- the transaction from the main chain (`QueryTransaction` → `Blockid` after the fork switch), or the stale one?
+-- the witness: transaction 1 (creates "k") sits in block 2 (branch A: 0 ← 2, height 1) AND in block 4 (branch B:
+-- 0 ← 3 ← 4, height 2; block 3 is empty). The node is on branch B. If the ledger answered "transaction 1 → height 1"
+-- (the block of the other branch), the snapshot at block 3 (height 1) would return version (1,0), although "k" did
+-- not exist when block 3 was the tip. In the ledger model of C04 this cannot happen: `c_trunk` (a transaction of a
+-- main-chain block is mapped to that block; `correctTxsBlockid` on a trunk switch, no overwrite by a side-branch
+-- confirmation) — see `snapshot_every_block_ledger` and the example below it on exactly this tree.
+-- TO REPLAY ON THE IMPLEMENTATION: confirm the same key-writing transaction in two sibling branches at different
+-- heights, in both orders (the lower one first as trunk, then the higher branch takes over; and the higher branch
+-- first, the lower one arriving later as a side branch), then read the key through `CreateSnapshot(B).Get` at the
+-- main-chain block between the two heights: `xModSnapshot.Get` must see the transaction at the main-chain height.
 private def bEnv : Env := {
   txs := [(1, ⟨1, false, [], [], [⟨"k", none⟩], [⟨"k", "a", false⟩]⟩)],
-  blocks := [(1, ⟨1, none, 1, [], "m"⟩), (2, ⟨2, some 1, 2, [1], "m"⟩), (3, ⟨3, some 1, 2, [], "m"⟩),
-             (4, ⟨4, some 3, 3, [1], "m"⟩)] }
+  blocks := [(0, ⟨0, none, 0, [], "m"⟩), (2, ⟨2, some 0, 1, [1], "m"⟩), (3, ⟨3, some 0, 1, [], "m"⟩),
+             (4, ⟨4, some 3, 2, [1], "m"⟩)] }
 
 /-- **the statement is false**: a height table that reports the block of another branch makes a snapshot expose a write
 that did not exist at the snapshot block -/
 theorem snapshot_any_branch_counterexample : ¬ snapshot_any_branch_statement := by
   intro h
-  have := h bEnv {} [1, 3] [4] (fun i => if i = 1 then some 2 else none) 2 "k" 2 (by decide) rfl rfl rfl
+  have := h bEnv {} [0, 3] [4] (fun i => if i = 1 then some 1 else none) 1 "k" 2 (by decide) rfl rfl rfl
     (by decide) (by decide) (by decide) (by decide) (by decide) (by decide)
   revert this
   decide
 
-example : snapshotGet bEnv (replayChain bEnv [1, 3, 4] {}) (fun i => if i = 1 then some 2 else none) 2 "k" 2 = some (1, 0) ∧
-    curVer (replayChain bEnv [1, 3] {}) "k" = none ∧
-    snapshotGet bEnv (replayChain bEnv [1, 3, 4] {}) (confOf bEnv [1, 3, 4]) 2 "k" 2 = none := by decide
+example : snapshotGet bEnv (replayChain bEnv [0, 3, 4] {}) (fun i => if i = 1 then some 1 else none) 1 "k" 2 = some (1, 0) ∧
+    curVer (replayChain bEnv [0, 3] {}) "k" = none ∧
+    snapshotGet bEnv (replayChain bEnv [0, 3, 4] {}) (confOf bEnv [0, 3, 4]) 1 "k" 2 = none := by decide
+
+-- the same tree in the ledger model of C04, both arrival orders: block 2 first (trunk), then 3 and 4 (trunk switch,
+-- `correctTxsBlockid`) — and 3, 4 first, block 2 arriving as a side branch. Either way the confirmed table maps
+-- transaction 1 to block 4 and the snapshot at height 1 does not see "k"
+private def bLedgerA : XV.Ledger.L :=
+  (XV.Ledger.confirm (XV.Ledger.confirm (XV.Ledger.confirm (XV.Ledger.genesis 0 []) 2 0 [(1, false)]).1 3 0 []).1 4 3
+    [(1, false)]).1
+private def bLedgerB : XV.Ledger.L :=
+  (XV.Ledger.confirm (XV.Ledger.confirm (XV.Ledger.confirm (XV.Ledger.genesis 0 []) 3 0 []).1 4 3 [(1, false)]).1 2 0
+    [(1, false)]).1
+private theorem bInvA : XV.Ledger.LedgerInv bLedgerA :=
+  XV.C04.confirm_inv _ 4 3 [(1, false)]
+    (XV.C04.confirm_inv _ 3 0 [] (XV.C04.confirm_inv _ 2 0 [(1, false)] (XV.C04.genesis_inv 0 []) (by decide) (by decide))
+      (by decide) (by decide)) (by decide) (by decide)
+private theorem bInvB : XV.Ledger.LedgerInv bLedgerB :=
+  XV.C04.confirm_inv _ 2 0 [(1, false)]
+    (XV.C04.confirm_inv _ 4 3 [(1, false)] (XV.C04.confirm_inv _ 3 0 [] (XV.C04.genesis_inv 0 []) (by decide) (by decide))
+      (by decide) (by decide)) (by decide) (by decide)
+example : bLedgerA.tip = 4 ∧ bLedgerB.tip = 4 ∧ ledgerConfH bLedgerA 1 = some 2 ∧ ledgerConfH bLedgerB 1 = some 2 ∧
+    lookup bLedgerA.C 1 = some 4 ∧ lookup bLedgerB.C 1 = some 4 := by decide
+example : snapshotGet bEnv (replayChain bEnv ([0, 3] ++ [4]) {}) (ledgerConfH bLedgerA) 1 "k" 2 =
+    curVer (replayChain bEnv [0, 3] {}) "k" :=
+  snapshot_every_block_ledger bEnv (by decide) {} [0, 3] [4] 1 _ bLedgerA bInvA (by unfold LedgerMatches; decide)
+    (fun _ => rfl) rfl (by decide) (by decide) (by decide) (Pends.refl _) "k" 2 (by decide)
+example : snapshotGet bEnv (replayChain bEnv ([0, 3] ++ [4]) {}) (ledgerConfH bLedgerB) 1 "k" 2 =
+    curVer (replayChain bEnv [0, 3] {}) "k" :=
+  snapshot_every_block_ledger bEnv (by decide) {} [0, 3] [4] 1 _ bLedgerB bInvB (by unfold LedgerMatches; decide)
+    (fun _ => rfl) rfl (by decide) (by decide) (by decide) (Pends.refl _) "k" 2 (by decide)
 
 /-- the strongest true version: the missing hypothesis is `hmain` — the height table reports, for every transaction
-of the chain, the height of its block ON THAT CHAIN (the main chain) -/
+of the chain, the height of its block ON THAT CHAIN (the main chain); C04 `c_trunk` provides it for the ledger's own
+table (`ledgerConfH_main`) -/
 theorem snapshot_any_branch_partial (e : Env) (g : St) (l1 l2 : List Nat) (confH : Nat → Option Nat) (hB : Nat)
     (key : String) (fuel : Nat)
     (hids : EnvIds e) (h1 : g.ZU = []) (h2 : g.ZD = []) (_h3 : g.pool = [])
@@ -627,11 +773,11 @@ theorem snapshot_any_branch_partial (e : Env) (g : St) (l1 l2 : List Nat) (confH
   have hg : ∀ k, curVer g k = none := fun k => by unfold curVer; rw [h1, h2]; rfl
   have hp : (replayChain e (l1 ++ l2) g).pool = [] := by rw [XV.C01.replayChain_pool, _h3]
   exact snapshot_chain_core e hids g l1 l2 confH hB [] _ hg hrun hmain hlow hhigh hp trivial rfl
-    (fun _ h => by cases h) key fuel (by simpa using hfuel)
+    key fuel (by simpa using hfuel)
 
-example : snapshotGet bEnv (replayChain bEnv ([1, 3] ++ [4]) {}) (confOf bEnv [1, 3, 4]) 2 "k" 2 =
-    curVer (replayChain bEnv [1, 3] {}) "k" :=
-  snapshot_any_branch_partial bEnv {} [1, 3] [4] (confOf bEnv [1, 3, 4]) 2 "k" 2 (by decide) rfl rfl rfl (by decide)
+example : snapshotGet bEnv (replayChain bEnv ([0, 3] ++ [4]) {}) (confOf bEnv [0, 3, 4]) 1 "k" 2 =
+    curVer (replayChain bEnv [0, 3] {}) "k" :=
+  snapshot_any_branch_partial bEnv {} [0, 3] [4] (confOf bEnv [0, 3, 4]) 1 "k" 2 (by decide) rfl rfl rfl (by decide)
     (by decide) (by decide) (by decide) (by decide) (by decide) (by decide)
 
 end XV.C18
